@@ -525,6 +525,141 @@ Proof.
   replace (1 + len rest =? 0) with false by lia. cbv zeta. unfold time_AppendFormat, JsonEnc.AppendTime. rewrite <- !app_assoc. reflexivity.
 Qed.
 
+(* ---------- appendFloat, 64-bit path: NaN/Inf strings, the 'e'/'f' choice, the exponent clean-up ---------- *)
+Definition mk64 (b : N) : gofl := {| fl32 := false; flbits := b |}.
+
+Lemma idx_app_r {A} (d : A) (L R : list A) k : 0 <= k -> idx d (L ++ R) (len L + k) = idx d R k.
+Proof. intros H. unfold idx, len. rewrite app_nth2 by lia. f_equal. lia. Qed.
+
+Lemma last4 {A} (t : list A) : (4 <= length t)%nat -> exists pre a b c d, t = pre ++ [a; b; c; d].
+Proof.
+  intros H. exists (firstn (length t - 4) t).
+  assert (Hs : length (skipn (length t - 4) t) = 4%nat) by (rewrite skipn_length; lia).
+  destruct (skipn (length t - 4) t) as [|a [|b [|c [|d [|? ?]]]]] eqn:E; cbn in Hs; try lia.
+  exists a, b, c, d. rewrite <- E. symmetry. apply firstn_skipn.
+Qed.
+
+(* what the float encoder assumes of strconv.AppendFloat for this value: the two texts *)
+Definition fo_agrees (fo : float_oracle) (f : fval) (prec : Z) : Prop :=
+  fo (mk64 (f_bits f)) 102%N prec 64 = f_txt_f f /\ fo (mk64 (f_bits f)) 101%N prec 64 = f_txt_e f.
+
+Lemma abs_exp b : (b < 2 ^ 64)%N ->
+  ((b mod 9223372036854775808 / 4503599627370496) mod 2048 = (b / 4503599627370496) mod 2048)%N /\
+  ((b mod 9223372036854775808) mod 4503599627370496 = b mod 4503599627370496)%N.
+Proof.
+  intros H. change (2 ^ 64)%N with 18446744073709551616%N in H.
+  pose proof (N.div_mod' b 9223372036854775808) as E1.
+  pose proof (N.mod_lt b 9223372036854775808 ltac:(lia)) as L1.
+  set (q := (b / 9223372036854775808)%N) in *. set (r := (b mod 9223372036854775808)%N) in *.
+  assert (q < 2)%N by lia.
+  pose proof (N.div_mod' r 4503599627370496) as E2. pose proof (N.mod_lt r 4503599627370496 ltac:(lia)) as L2.
+  set (q2 := (r / 4503599627370496)%N) in *. set (r2 := (r mod 4503599627370496)%N) in *.
+  assert (Hq2 : (q2 < 2048)%N) by lia.
+  assert (Eb : b = (4503599627370496 * (q * 2048 + q2) + r2)%N) by lia.
+  split.
+  - rewrite (N.mod_small q2) by lia.
+    assert ((b / 4503599627370496) = q * 2048 + q2)%N as ->.
+    { symmetry. apply (N.div_unique b 4503599627370496 _ r2); lia. }
+    rewrite N.add_comm, N.mod_add by lia. symmetry. apply N.mod_small. lia.
+  - apply (N.mod_unique b 4503599627370496 (q * 2048 + q2) r2); lia.
+Qed.
+
+Lemma key64 a : (a < 9223372036854775808)%N -> fl_key {| fl32 := false; flbits := a |} = Z.of_N a.
+Proof. intros H. unfold fl_key, fl_neg_bit, fl_abs. cbn [fl32 flbits]. rewrite N.mod_small by lia. replace (9223372036854775808 <=? a)%N with false by lia. reflexivity. Qed.
+Lemma cmp64 a c : (a < 9223372036854775808)%N -> (c < 9223372036854775808)%N ->
+  fl_isnan {| fl32 := false; flbits := a |} = false -> fl_isnan {| fl32 := false; flbits := c |} = false ->
+  fl_lt {| fl32 := false; flbits := a |} {| fl32 := false; flbits := c |} = (a <? c)%N /\
+  fl_le {| fl32 := false; flbits := c |} {| fl32 := false; flbits := a |} = (c <=? a)%N /\
+  fl_eq {| fl32 := false; flbits := a |} {| fl32 := false; flbits := c |} = (a =? c)%N.
+Proof. intros Ha Hc Na Nc. unfold fl_lt, fl_le, fl_eq. rewrite Na, Nc, !key64 by auto. cbn [negb andb]. repeat split; lia. Qed.
+
+Lemma upd_app_r {A} (L R : list A) k x : upd (L ++ R) (length L + k) x = L ++ upd R k x.
+Proof. induction L as [|y L IH]; [reflexivity|]. cbn [app length Nat.add upd]. f_equal. apply IH. Qed.
+Lemma set_idx_app_r {A} (L R : list A) k x : 0 <= k -> set_idx (L ++ R) (len L + k) x = L ++ set_idx R k x.
+Proof. intros H. unfold set_idx, len. replace (Z.to_nat (Z.of_nat (length L) + k)) with (length L + Z.to_nat k)%nat by lia. apply upd_app_r. Qed.
+Lemma slice_app_l {A} (L R : list A) k : 0 <= k -> slice (L ++ R) 0 (len L + k) = L ++ slice R 0 k.
+Proof.
+  intros H. unfold slice, len. rewrite !Z.sub_0_r. cbn [Z.to_nat skipn].
+  replace (Z.to_nat (Z.of_nat (length L) + k)) with (length L + Z.to_nat k)%nat by lia.
+  rewrite firstn_app_2. reflexivity.
+Qed.
+Lemma cleanup_exp_last4 pre c1 c2 c3 c4 :
+  cleanup_exp (pre ++ [c1; c2; c3; c4]) =
+  if ((c1 =? 101) && (c2 =? 45) && (c3 =? 48))%N then pre ++ [c1; c2; c4] else pre ++ [c1; c2; c3; c4].
+Proof.
+  unfold cleanup_exp. rewrite app_length. cbn [length]. replace (4 <=? length pre + 4)%nat with true by lia.
+  replace (length pre + 4 - 4)%nat with (length pre + 0)%nat by lia. rewrite skipn_app, skipn_all2 by lia.
+  replace (length pre + 0 - length pre)%nat with 0%nat by lia. cbn [app skipn].
+  replace (length pre + 4 - 2)%nat with (length pre + 2)%nat by lia. rewrite firstn_app_2. cbn [firstn].
+  destruct (c1 =? 101)%N eqn:E1; [apply N.eqb_eq in E1; subst c1|].
+  2:{ cbn [andb]. destruct c1 as [|p]; [reflexivity|]. apply N.eqb_neq in E1.
+      repeat (destruct p as [p|p|]; try reflexivity); congruence. }
+  destruct (c2 =? 45)%N eqn:E2; [apply N.eqb_eq in E2; subst c2|].
+  2:{ cbn [andb]. destruct c2 as [|p]; [reflexivity|]. apply N.eqb_neq in E2.
+      repeat (destruct p as [p|p|]; try reflexivity); congruence. }
+  destruct (c3 =? 48)%N eqn:E3; [apply N.eqb_eq in E3; subst c3|].
+  2:{ cbn [andb]. destruct c3 as [|p]; [reflexivity|]. apply N.eqb_neq in E3.
+      repeat (destruct p as [p|p|]; try reflexivity); congruence. }
+  cbn [andb]. rewrite <- app_assoc. reflexivity.
+Qed.
+
+Theorem AppendFloat64_src fo dst f prec : (f_bits f < 2 ^ 64)%N -> fo_agrees fo f prec -> (4 <= length (f_txt_e f))%nat ->
+  len_ok (dst ++ f_txt_e f) ->
+  JsonSrc.AppendFloat64 fo dst (mk64 (f_bits f)) prec = Ok (JsonEnc.AppendFloat64 dst f prec).
+Proof.
+  intros Hb [Hf He] H4 Hlen. unfold JsonSrc.AppendFloat64, JsonSrc.appendFloat, JsonEnc.AppendFloat64, JsonEnc.appendFloat.
+  set (b := f_bits f) in *.
+  unfold fl_isnan, fl_isinf, mk64. cbn [fl32 flbits].
+  change (f64_exp b) with ((b / 4503599627370496) mod 2048)%N. change (f64_man b) with (b mod 4503599627370496)%N.
+  destruct (((b / 4503599627370496) mod 2048 =? 2047)%N && negb (b mod 4503599627370496 =? 0)%N) eqn:Enan; [reflexivity|].
+  cbn [Z.leb Z.compare andb orb]. rewrite !orb_false_r.
+  destruct (b =? 9218868437227405312)%N; [reflexivity|]. destruct (b =? 18442240474082181120)%N; [reflexivity|].
+  cbv zeta.
+  assert (Ha : (b mod 9223372036854775808 < 9223372036854775808)%N) by (apply N.mod_lt; lia).
+  set (a := (b mod 9223372036854775808)%N) in *.
+  change (fl_abs {| fl32 := false; flbits := b |}) with {| fl32 := false; flbits := a |}.
+  assert (Na : fl_isnan {| fl32 := false; flbits := a |} = false).
+  { unfold fl_isnan. cbn [fl32 flbits]. unfold a. destruct (abs_exp b Hb) as [E1 E2]. rewrite E1, E2. exact Enan. }
+  destruct (cmp64 a 0 Ha ltac:(lia) Na ltac:(reflexivity)) as (_ & _ & Eq0).
+  destruct (cmp64 a 4517329193108106637 Ha ltac:(lia) Na ltac:(reflexivity)) as (Elt & _ & _).
+  destruct (cmp64 a 4921056587992461136 Ha ltac:(lia) Na ltac:(reflexivity)) as (_ & Ele & _).
+  rewrite Eq0, Elt, Ele. unfold fl_same_width. cbn [fl32 Bool.eqb Z.eqb Pos.eqb negb andb orb unsup_unless].
+  rewrite !orb_true_r. cbn [unsup_unless].
+  change (f64_abs b) with a. change f64_1em6 with 4517329193108106637%N. change f64_1e21 with 4921056587992461136%N.
+  unfold strconv_AppendFloat. fold (mk64 b). rewrite Hf, He.
+  change (102 =? 101)%N with false. change (101 =? 101)%N with true. cbv iota.
+  (* the e-format branch with the clean-up, proved once *)
+  assert (Hclean :
+    (let X := dst ++ f_txt_e f in
+     guard (negb (4 <=? len X) || inb (wraps 64 (len X - 4)) X)
+      (guard (negb ((4 <=? len X) && (idx 0%N X (wraps 64 (len X - 4)) =? 101)%N) || inb (wraps 64 (len X - 3)) X)
+        (guard (negb ((4 <=? len X) && (idx 0%N X (wraps 64 (len X - 4)) =? 101)%N && (idx 0%N X (wraps 64 (len X - 3)) =? 45)%N) || inb (wraps 64 (len X - 2)) X)
+          (if (4 <=? len X) && (idx 0%N X (wraps 64 (len X - 4)) =? 101)%N && (idx 0%N X (wraps 64 (len X - 3)) =? 45)%N && (idx 0%N X (wraps 64 (len X - 2)) =? 48)%N
+           then guard (inb (wraps 64 (len X - 1)) X) (guard (inb (wraps 64 (len X - 2)) X)
+                  (guard (slice_ok (set_idx X (wraps 64 (len X - 2)) (idx 0%N X (wraps 64 (len X - 1)))) 0 (wraps 64 (len X - 1)))
+                     (Ok (slice (set_idx X (wraps 64 (len X - 2)) (idx 0%N X (wraps 64 (len X - 1)))) 0 (wraps 64 (len X - 1))))))
+           else Ok X)))) = Ok (dst ++ cleanup_exp (f_txt_e f))).
+  { destruct (last4 _ H4) as (pre & c1 & c2 & c3 & c4 & Et). cbv zeta. rewrite Et in *.
+    rewrite cleanup_exp_last4. rewrite app_assoc in *. set (L := dst ++ pre) in *.
+    assert (Hl : len (L ++ [c1; c2; c3; c4]) = len L + 4) by (rewrite len_app; reflexivity).
+    pose proof (len_nonneg L) as HL. unfold len_ok in Hlen. rewrite Hl in *.
+    replace (4 <=? len L + 4) with true by lia. cbn [negb andb orb].
+    rewrite !wraps64_id by lia.
+    replace (len L + 4 - 4) with (len L + 0) by lia. replace (len L + 4 - 3) with (len L + 1) by lia.
+    replace (len L + 4 - 2) with (len L + 2) by lia. replace (len L + 4 - 1) with (len L + 3) by lia.
+    rewrite !idx_app_r by lia. change (idx 0%N [c1; c2; c3; c4] 0) with c1. change (idx 0%N [c1; c2; c3; c4] 1) with c2.
+    change (idx 0%N [c1; c2; c3; c4] 2) with c3. change (idx 0%N [c1; c2; c3; c4] 3) with c4.
+    rewrite !inb_true by (rewrite Hl; lia). rewrite !orb_true_r, !guard_true.
+    destruct ((c1 =? 101)%N && (c2 =? 45)%N && (c3 =? 48)%N); [|unfold L; rewrite <- app_assoc; reflexivity].
+    rewrite set_idx_app_r by lia. change (set_idx [c1; c2; c3; c4] 2 c4) with [c1; c2; c4; c4].
+    rewrite slice_ok_true by (rewrite ?len_app; change (len [c1; c2; c4; c4]) with 4; lia). rewrite guard_true.
+    rewrite slice_app_l by lia. change (slice [c1; c2; c4; c4] 0 3) with [c1; c2; c4]. unfold L; rewrite <- app_assoc; reflexivity. }
+  cbv zeta in Hclean.
+  destruct (prec =? -1) eqn:Ep; cbn [andb]; [|reflexivity].
+  destruct (a =? 0)%N eqn:Ea0; cbn [negb andb]; [reflexivity|].
+  destruct ((a <? 4517329193108106637)%N || (4921056587992461136 <=? a)%N); [exact Hclean|reflexivity].
+Qed.
+
 (* ---------- summary: every translated function of internal/json refines the model ---------- *)
 Definition strs_ok (vals : list (list N)) : Prop := Forall (fun s => bytes_ok s /\ len_ok s) vals.
 
@@ -557,7 +692,9 @@ Definition json_source_refinement : Prop :=
                  JsonSrc.AppendUints16 dst l = Ok (JsonEnc.AppendUints dst l) /\ JsonSrc.AppendUints32 dst l = Ok (JsonEnc.AppendUints dst l) /\
                  JsonSrc.AppendUints64 dst l = Ok (JsonEnc.AppendUints dst l)) /\
   (forall dst t format, tval_ok t -> JsonSrc.AppendTime dst t format = Ok (JsonEnc.AppendTime dst t (fmt_of format))) /\
-  (forall dst l format, Forall tval_ok l -> JsonSrc.AppendTimes dst l format = Ok (JsonEnc.AppendTimes dst l (fmt_of format))).
+  (forall dst l format, Forall tval_ok l -> JsonSrc.AppendTimes dst l format = Ok (JsonEnc.AppendTimes dst l (fmt_of format))) /\
+  (forall fo dst f prec, (f_bits f < 2 ^ 64)%N -> fo_agrees fo f prec -> (4 <= length (f_txt_e f))%nat -> len_ok (dst ++ f_txt_e f) ->
+     JsonSrc.AppendFloat64 fo dst (mk64 (f_bits f)) prec = Ok (JsonEnc.AppendFloat64 dst f prec)).
 
 Theorem json_source_refines_model : json_source_refinement.
 Proof.
@@ -566,7 +703,7 @@ Proof.
           | apply AppendStrings_src | apply AppendArrayDelim_src | apply AppendBool_src | apply AppendBools_src
           | apply AppendInts_src | apply AppendInts8_src | apply AppendInts16_src | apply AppendInts32_src | apply AppendInts64_src
           | apply AppendUints_src | apply AppendUints8_src | apply AppendUints16_src | apply AppendUints32_src | apply AppendUints64_src
-          | apply AppendTime_src | apply AppendTimes_src | reflexivity ]; auto.
+          | apply AppendTime_src | apply AppendTimes_src | apply AppendFloat64_src | reflexivity ]; auto.
 Qed.
 
 (* the functions of internal/json the translator could NOT express stay tied to the code by the
